@@ -77,7 +77,7 @@ CHECKS["C04"] = dict(
 
 CHECKS["C05"] = dict(
     technique="TLA+ spec PanProto (prototype forest state machine: Literal / Bear / Bro / unrelated-literal steps; Find, Resolve, Ancestors, KindOf): TLC explores every forest of <= 3 constructor steps and checks the forest invariants; every behaviour is replayed as a program in the real interpreter and each lookup query compared",
-    text="Bounded-exhaustive model checking of the forest machine and replay of its behaviours: for every object and name (own / inherited / shadowed / absent / via _missing): read, call with arguments, index by symbol, which, list-chain form, keys, ancestors, proto, kindOf?; roots that are not objects (5, \"s\", [1, 2], nil), their children and their siblings.",
+    text="Bounded-exhaustive model checking of the forest machine and replay of its behaviours: for every object and name (own / inherited / shadowed / absent / via _missing): read, call with arguments, index by symbol, which, list-chain form, keys, ancestors, proto, kindOf?; roots that are not objects (5, \"s\", [1, 2], nil), their children and their siblings; afterwards every ordered pair of objects re-parented (oP.bear(oX): oX's own properties first, then oP's chain) and asked by index and which.",
     note="Trusts TLC, the canonical rendering, and the marker values the replay puts into properties; objects carry a unique tag so that structural == is identity.",
     design="§5 C05")
 
